@@ -68,6 +68,8 @@ func lineFor(t *rapid.T, o ExpOutput, label string) string {
 func genExp(t *rapid.T) ExpCase {
 	c := ExpCase{}
 	ns := rapid.IntRange(1, 3).Draw(t, "steps")
+	// all expectations first, so that a step's lines can also serve a
+	// later step (left-overs in the stream)
 	for si := 0; si < ns; si++ {
 		st := ExpStep{}
 		l := fmt.Sprintf("s%d", si)
@@ -76,12 +78,21 @@ func genExp(t *rapid.T) ExpCase {
 			inv := oi > 0 && rapid.IntRange(0, 4).Draw(t, fmt.Sprintf("%s.inv%d", l, oi)) == 0
 			st.Outputs = append(st.Outputs, genExpOutput(t, fmt.Sprintf("%s.o%d", l, oi), inv))
 		}
+		c.Steps = append(c.Steps, st)
+	}
+	for si := range c.Steps {
+		st := &c.Steps[si]
+		l := fmt.Sprintf("s%d", si)
 		// the stream: instances of the expected outputs (possibly not of
-		// all of them), duplicates, near misses, noise
+		// all of them, possibly of a later step's), duplicates, near
+		// misses, noise; a later step may be quiet (no lines at all)
 		nl := rapid.IntRange(0, 6).Draw(t, l+".nl")
+		if si > 0 && rapid.IntRange(0, 2).Draw(t, l+".quiet") == 0 {
+			nl = 0
+		}
 		for li := 0; li < nl; li++ {
 			ll := fmt.Sprintf("%s.l%d", l, li)
-			switch k := rapid.IntRange(0, 9).Draw(t, ll+".k"); {
+			switch k := rapid.IntRange(0, 10).Draw(t, ll+".k"); {
 			case k <= 5:
 				o := st.Outputs[rapid.IntRange(0, len(st.Outputs)-1).Draw(t, ll+".oi")]
 				if o.Inverted && rapid.IntRange(0, 2).Draw(t, ll+".skipinv") > 0 {
@@ -93,11 +104,26 @@ func genExp(t *rapid.T) ExpCase {
 			case k <= 7:
 				js, _ := json.Marshal(map[string]interface{}{"k": rapid.SampledFrom([]string{"A", "B", "C", "D", "E"}).Draw(t, ll+".nm"), "n": float64(rapid.IntRange(0, 5).Draw(t, ll+".nn"))})
 				st.Lines = append(st.Lines, string(js))
+			case k == 8 && si+1 < len(c.Steps):
+				later := c.Steps[rapid.IntRange(si+1, len(c.Steps)-1).Draw(t, ll+".later")]
+				o := later.Outputs[0]
+				st.Lines = append(st.Lines, lineFor(t, o, ll))
 			default:
 				st.Lines = append(st.Lines, rapid.SampledFrom([]string{"not json", "{broken", "42", "\"str\"", "[1,2]", "null"}).Draw(t, ll+".noise"))
 			}
 		}
-		c.Steps = append(c.Steps, st)
+	}
+	// a quiet step can only be satisfied by what earlier steps left in
+	// the stream: often provide exactly that, at the end of the previous
+	// step's lines
+	for si := 1; si < len(c.Steps); si++ {
+		if len(c.Steps[si].Lines) == 0 && rapid.IntRange(0, 3).Draw(t, fmt.Sprintf("feed%d", si)) > 0 {
+			for oi, o := range c.Steps[si].Outputs {
+				if !o.Inverted {
+					c.Steps[si-1].Lines = append(c.Steps[si-1].Lines, lineFor(t, o, fmt.Sprintf("feed%d.%d", si, oi)))
+				}
+			}
+		}
 	}
 	return c
 }
